@@ -179,17 +179,21 @@ def _tdiv(a, b):
 def compare(op, a, b):
     deps = _deps(a, b)
     val = None
+    disjoint = False
+    va, vb = a.values(), b.values()
+    if va is not None and vb is not None and not (va & vb):
+        disjoint = True
     if op == "Eq":
         if a.is_const() and b.is_const() and a.lo == b.lo:
             val = True
-        elif a.hi < b.lo or b.hi < a.lo:
+        elif a.hi < b.lo or b.hi < a.lo or disjoint:
             val = False
         elif _bits_differ(a, b):
             val = False
     elif op == "Ne":
         if a.is_const() and b.is_const() and a.lo == b.lo:
             val = False
-        elif a.hi < b.lo or b.hi < a.lo:
+        elif a.hi < b.lo or b.hi < a.lo or disjoint:
             val = True
         elif _bits_differ(a, b):
             val = True
@@ -255,7 +259,7 @@ def cast_int(a, to):
             bits = a.bits + (fill,) * (w - fw)
     if tlo <= a.lo and a.hi <= thi:
         aa = a.affine()
-        return IntV(to, bits, a.lo, a.hi, aa, a.deps, a.sid, a.term)
+        return IntV(to, bits, a.lo, a.hi, aa, a.deps, a.sid, a.term, a.vset)
     # truncation / reinterpretation
     if bits is not None:
         return IntV(to, bits, None, None, None, a.deps)
